@@ -781,6 +781,10 @@ func execWith(in []string, deferAll bool) []string {
 		env.Host.Events.BeforeRcptToAccepted.AddListener("verif-allow", func(event.SMTPSession) *event.SMTPResponse {
 			return &event.SMTPResponse{Action: event.ActionAllow}
 		})
+		// ... and every sender: the reject-origin list is overridden too; what is stored is still the store policy's
+		env.Host.Events.BeforeMailFromAccepted.AddListener("verif-allow", func(event.SMTPSession) *event.SMTPResponse {
+			return &event.SMTPResponse{Action: event.ActionAllow}
+		})
 	}
 	if deferAll {
 		env.Host.Events.BeforeMailFromAccepted.AddListener("verif-defer", func(event.SMTPSession) *event.SMTPResponse {
